@@ -1,5 +1,6 @@
 """C14 — shipped schedules name only passes, arguments and tool behaviours that exist."""
 import json
+import shutil
 import os
 import re
 import stat
@@ -39,6 +40,8 @@ def run(ctx):
     multi = ex.multi_rewrite_classes()
     pyargs = gen_model.py_arg_sets(REPO)
     drv = (REPO / 'clex/driver.c').read_text()
+    for name, val in re.findall(r'^\s*#\s*define\s+(\w+)\s+\(?(\d+)\)?\s*$', drv, re.M):     # integer macros used in the range checks
+        drv = re.sub(r'\b' + name + r'\b(?!\s+\(?\d)', val, drv)
     exact = set(re.findall(r'strcmp\(cmd,\s*"([^"]+)"\)\s*==\s*0', drv))
     pref = [(m.group(1), int(m.group(2)) + 1, int(m.group(3))) for m in
             re.finditer(r'strncmp\(cmd,\s*"([^"]+)",\s*\d+\)\s*==\s*0\)\s*\{[^}]*?assert\(n_toks\s*>\s*(\d+)\s*&&\s*n_toks\s*<=\s*(\d+)\)', drv, re.S)]
@@ -69,6 +72,19 @@ def run(ctx):
 
     if ctx.replay:
         o = json.load(open(ctx.replay))
+        if o.get('kind') == 'clex-run':
+            import check_C18
+            import minilex
+            cd, exe = check_C18.build(ctx)
+            toks, status, code, out, err = check_C18.run_clex(exe, cd, o['mode'], o['idx'], o['text'], minilex.Lexer(REPO / 'clex' / 'clex.l'), 'r')
+            want = 51 if o['idx'] == 0 else 71
+            print('clex', o['mode'], o['idx'], '->', code, 'holds' if code == want else 'fails')
+            if code != want:
+                ctx.report(f"clex-mode-fails-when-run:{o['mode']}", 'replayed', o)
+            return 1 if ctx.violations else 0
+        if 'entry' not in o:
+            print('this replay names a broken proof or correspondence, not an input')
+            return 1
         sig = entry_ok(o['entry'])
         print(o['entry'], '->', sig or 'holds')
         if sig:
@@ -144,11 +160,26 @@ def run(ctx):
         checked += 1
         if got != n:
             ctx.report('count-message-not-parsed', f'stdout message for {n} parsed as {got}', {'kind': 'msg', 'n': n})
+    # every shipped clex mode is run on the real helper (driver.c compiled with a replaying yylex, as in C18): the first
+    # index must produce a candidate (51) on a text that has material for every mode, a huge index must report STOP (71)
+    import check_C18
+    import minilex
+    lexer = minilex.Lexer(REPO / 'clex' / 'clex.l')
+    cd, exe = check_C18.build(ctx)
+    rich = '#define AA 1\n' + ' '.join(f'int foo{j} = AA + "str{j}" ; /* c */ bar{j} ( foo{j} , 2 ) ;' for j in range(8)) + '\n'
+    for arg in sorted({e.get('arg') for _, _, _, e in shipped_entries() if e.get('pass') == 'clex'}):
+        for idx, want in ((0, 51), (10 ** 6, 71)):
+            toks, status, code, out, err = check_C18.run_clex(exe, cd, arg, idx, rich, lexer, f'c14.{arg}.{idx}')
+            checked += 1
+            if code != want:
+                ctx.report(f'clex-mode-fails-when-run:{arg}', f'clex {arg} {idx} on the sample text exits {code}, expected {want}: {err.strip()[:160]}',
+                           {'kind': 'clex-run', 'mode': arg, 'idx': idx, 'text': rich})
+    shutil.rmtree(cd, ignore_errors=True)
     ctx.sample({'entry': {'pass': 'clangbinarysearch', 'arg': 'remove-unused-function'}, 'registered_class': regs.get('remove-unused-function'), 'multi': regs.get('remove-unused-function') in multi})
     ctx.sample({'clex_prefix_modes': pref, 'clex_exact': sorted(exact)})
     conclude(ctx, [], None)
     ctx.assumptions += ['clang_delta itself cannot be built or run here: its side of the conventions is read from the sources by cdgen.py',
-                        'clex modes are read from main() of driver.c; clex is compiled and run in C18']
+                        'clex modes are read from main() of driver.c (integer macros substituted) and each shipped mode is run once on the compiled helper; the exhaustive run of clex is C18']
     return ctx.finish(obligations=OBLIGATIONS,
                       rule='every entry of the four shipped groups judged against the regenerated acceptors (Lean: decide +kernel over the whole table; Python: same reading) and cross-checked by '
                            'running the real Python passes on every argument they compare with plus a bogus one, and the three drivers against a stand-in tool for exit codes 0/1/2/51/71/255 and count messages; '
